@@ -6,7 +6,7 @@ from harness.main import Engine
 from harness.props import c01, c04, c12
 
 PID = 'C05'
-LEVEL = 'translation_validation'
+LEVEL = 'proof'
 RULE = ('gin-machine/macros: 1-3 parse phases; macro definitions, uses (%m) and re-definitions in every order, before and '
         'after the use and across parse calls; scope-like macro names (s1/m); macros bound to literals, @g, @g(), other '
         'macros; Python-defined constants with shared dotted suffixes, abbreviated by every suffix, invalid / duplicate / '
